@@ -145,7 +145,8 @@ chk('C16', 'model_checking',
     'Color.tla: abstract per-character style = innermost token annotation, strip = plain rendering, final reset; concrete colour '
     'stack. ColorMC checks concrete => abstract over ALL well-nested streams up to the bound; the bytes really written (synthetic '
     'streams x 32 attribute combinations, real values x every installed pygments style, true colours forced) are decoded by an '
-    'SGR state machine and judged by TLC (ColorTrace).',
+    'SGR state machine and judged by TLC (ColorTrace). The entry point cpprint is also run end to end under random configurations: '
+    'decoded output with the styling removed must equal pformat under the same configuration + end (differential clause).',
     TB + 'The SGR decoder is trusted.',
     'TLA+ model checking of the colour stack + trace validation of decoded escape streams', 'DESIGN.md section 4 C16', 'color')
 chk('C17', 'other',
